@@ -83,6 +83,11 @@ func main() {
 			main = p2
 		}
 	}
+	if os.Getenv("TVC_CARRIED") != "" && lerr == nil {
+		carriedDiag(main)
+		carriedDiag(asWritten)
+		return
+	}
 	loadT := time.Since(start)
 	exit := 0
 	for _, id := range props {
